@@ -1,5 +1,5 @@
 (* C15 - Encoding then decoding (and decoding then encoding) is the identity. *)
-From Ctap Require Import Base Schema Wire Utf8 Typed Procs Inst Tables Limits WireP TypedP FramingP ObSerRole ObDeRole.
+From Ctap Require Import Base Schema Wire Utf8 Typed WellTyped Procs Inst Tables Limits WireP TypedP FramingP SerP RoundTripP ObSerRole ObDeRole ObEnvRt.
 Local Open Scope string_scope.
 Local Open Scope Z_scope.
 
@@ -33,8 +33,6 @@ Theorem c15_string_enums_inverse :
 Proof. vm_compute. reflexivity. Qed.
 
 (* number-valued enumerations: discriminants are pairwise distinct, so value -> number -> value is the identity *)
-Fixpoint nodup_z (l : list Z) : bool :=
-  match l with [] => true | x :: r => negb (zmem x r) && nodup_z r end.
 Theorem c15_repr_enums_injective :
   forallb (fun f => forallb (fun p => match snd p with DRepr _ _ _ vs => nodup_z (map snd vs) | _ => true end) (spec_env f)) all_feats = true.
 Proof. vm_compute. reflexivity. Qed.
@@ -59,6 +57,58 @@ Theorem c15_i32_roundtrip : forall e k z r, -2147483648 <= z <= 2147483647 ->
   dec e (S k) TI32 (ser_int z ++ r)%list = Ok (VZ z, r).
 Proof. exact dec_i32_exact. Qed.
 
+(* ROUND TRIP OF THE TYPED CODEC.  For every environment e whose declarations are well-formed (env_rt: a
+   boolean over the declaration tables - member keys and labels pairwise distinct, keys in range, every
+   text key resolves to its own member, enumerations' two tables mutually inverse on what they emit ...),
+   every type t and every value v that is well-typed for t (wt: capacities and integer ranges respected,
+   text valid UTF-8, optional members None or Some, any subset of optional members present), decoding the
+   encoding of v followed by ANY bytes returns exactly v and exactly those bytes.  No bound on the size of
+   the value, on nesting, or on which optional members are set. *)
+Theorem c15_decode_encode : forall e t v b rest, env_rt e = true ->
+  wt e type_fuel t v = true -> encode e t v = Some b -> decode e t (b ++ rest)%list = Ok (v, rest).
+Proof. exact decode_encode. Qed.
+
+(* bytes -> value -> bytes on canonical bytes (the encodings of well-typed values) reproduces the bytes *)
+Theorem c15_encode_decode : forall e t v b, env_rt e = true ->
+  wt e type_fuel t v = true -> encode e t v = Some b ->
+  exists v', decode e t b = Ok (v', []) /\ encode e t v' = Some b.
+Proof. exact encode_decode. Qed.
+
+(* no member is lost or renumbered in one direction only: distinct values have distinct encodings, and no
+   encoding is a proper prefix of another *)
+Theorem c15_encode_injective : forall e t v1 v2 b1 b2 x1 x2, env_rt e = true ->
+  wt e type_fuel t v1 = true -> wt e type_fuel t v2 = true ->
+  encode e t v1 = Some b1 -> encode e t v2 = Some b2 -> (b1 ++ x1 = b2 ++ x2)%list -> v1 = v2 /\ x1 = x2.
+Proof. exact encode_injective. Qed.
+
+(* the declarations are well-formed in every feature configuration: specification tables, and the
+   declarations regenerated from /repo (obligation on the current source) *)
+Theorem c15_spec_declarations_wellformed : forallb (fun f => env_rt (spec_env f)) all_feats = true.
+Proof. vm_compute. reflexivity. Qed.
+Theorem c15_generated_declarations_wellformed : forallb (fun f => env_rt (gen_env f)) all_feats = true.
+Proof. exact generated_env_rt. Qed.
+
+(* instantiated: the crate's declarations, any feature set *)
+Theorem c15_roundtrip_all_features : forall f t v b rest, In f all_feats ->
+  wt (gen_env f) type_fuel t v = true -> encode (gen_env f) t v = Some b ->
+  decode (gen_env f) t (b ++ rest)%list = Ok (v, rest).
+Proof.
+  intros f t v b rest Hf. apply decode_encode.
+  exact (forallb_In (fun f => env_rt (gen_env f)) all_feats f generated_env_rt Hf).
+Qed.
+
+(* the hypotheses are satisfiable by non-trivial values: a ClientPin request carrying a key-agreement key,
+   a PIN hash and a permissions mask is well-typed *)
+Definition ex_client_pin : val :=
+  VRec [("pin_protocol", VZ 1); ("sub_command", VEnum "GetPinToken");
+        ("key_agreement", VSome (VRec [("x", VBytes (repeat 7 32)); ("y", VBytes (repeat 9 32))]));
+        ("pin_auth", VNone); ("new_pin_enc", VNone); ("pin_hash_enc", VSome (VBytes (repeat 1 16)));
+        ("_placeholder07", VNone); ("_placeholder08", VNone);
+        ("permissions", VSome (VZ 5)); ("rp_id", VSome (VStr (bytes_of_string "example.org")))].
+Example c15_example_in_domain :
+  wt (spec_env []) type_fuel (TNamed "ctap2::client_pin::Request") ex_client_pin = true.
+Proof. vm_compute. reflexivity. Qed.
+
 Eval vm_compute in "ASSUMPTIONS c15_bidirectional_set". Print Assumptions c15_bidirectional_set.
 Eval vm_compute in "ASSUMPTIONS c15_generated_ser". Print Assumptions c15_generated_ser.
 Eval vm_compute in "ASSUMPTIONS c15_generated_de". Print Assumptions c15_generated_de.
@@ -68,3 +118,10 @@ Eval vm_compute in "ASSUMPTIONS c15_head_roundtrip". Print Assumptions c15_head_
 Eval vm_compute in "ASSUMPTIONS c15_bytes_roundtrip". Print Assumptions c15_bytes_roundtrip.
 Eval vm_compute in "ASSUMPTIONS c15_text_roundtrip". Print Assumptions c15_text_roundtrip.
 Eval vm_compute in "ASSUMPTIONS c15_i32_roundtrip". Print Assumptions c15_i32_roundtrip.
+Eval vm_compute in "ASSUMPTIONS c15_decode_encode". Print Assumptions c15_decode_encode.
+Eval vm_compute in "ASSUMPTIONS c15_encode_decode". Print Assumptions c15_encode_decode.
+Eval vm_compute in "ASSUMPTIONS c15_encode_injective". Print Assumptions c15_encode_injective.
+Eval vm_compute in "ASSUMPTIONS c15_spec_declarations_wellformed". Print Assumptions c15_spec_declarations_wellformed.
+Eval vm_compute in "ASSUMPTIONS c15_generated_declarations_wellformed". Print Assumptions c15_generated_declarations_wellformed.
+Eval vm_compute in "ASSUMPTIONS c15_roundtrip_all_features". Print Assumptions c15_roundtrip_all_features.
+Eval vm_compute in "ASSUMPTIONS c15_example_in_domain". Print Assumptions c15_example_in_domain.
